@@ -5,23 +5,31 @@
 (*                 height, then most common block id (a SET of acceptable  *)
 (*                 answers - the code picks one of them at random)         *)
 (*  HighestCommon  answer of the getHighestCommonBlock handler             *)
-(*  BlocksFrom     answer of the getBlocksFromId handler (cap 103)         *)
+(*  BlocksFromOk   answers of the getBlocksFromId handler the statement    *)
+(*                 allows (consecutive followers, in order, <= cap)        *)
 (*  Outcome        where a node ends after it was offered the tip of a     *)
 (*                 peer's chain: decided by LIP-0014 priority, the common  *)
 (*                 block vs the finalized height, the fast-sync / block-   *)
 (*                 sync conditions and the peer's behaviour                *)
 (* One state per input tuple (TLC as enumerator of finite tables) for the  *)
-(* first three; Outcome is used by SyncTrace.tla on recorded scenarios.    *)
+(* first; the others are used by SyncTrace.tla on recorded scenarios.      *)
 (***************************************************************************)
-EXTENDS Integers, Sequences, FiniteSets, TLC
+EXTENDS Integers, Sequences, FiniteSets, TLC, Json, Randomization
 
-CONSTANTS MaxV, Mode
+\* MaxV: largest rank of maxHeightPrevoted / height in the wide part of the peer table; NSample: rows sampled per shape of
+\* the 5- and 6-peer tables.  The table holds RANKS: the selection depends on the order of the values only, the harness
+\* evaluates every row under several monotone embeddings into uint32 (identity, 2^31 and 2^32-1 among the images).
+CONSTANTS MaxV, Mode, NSample
 
 VARIABLES x
 svars == <<x>>
 
-Tips == [mhp : 0..MaxV, h : 0..MaxV, id : 1..3]
-Infos == UNION {[1..n -> Tips] : n \in 1..4}
+Tips(v) == [mhp : 0..v, h : 0..v, id : 1..3]
+\* exhaustive: every sequence of <= 4 tips over ranks 0..1 and of <= 3 tips over ranks 0..MaxV
+Exhaustive == UNION {[1..n -> Tips(1)] : n \in 1..4} \cup UNION {[1..n -> Tips(MaxV)] : n \in 1..3}
+\* sampled: 5 and 6 peers (a frequency counted over the wrong group needs 5 peers to beat the right one for certain)
+Sampled == UNION {RandomSubset(NSample, [1..n -> Tips(v)]) : n \in 5..6, v \in {1, MaxV}}
+Infos == Exhaustive \cup Sampled
 
 MaxOf(S) == CHOOSE m \in S : \A y \in S : y <= m
 Idx(s) == 1..Len(s)
@@ -34,47 +42,109 @@ BestPeers(s) ==
       m3 == MaxOf({Freq(i) : i \in S2})
   IN {i \in S2 : Freq(i) = m3}
 
-\* a consistent peer set never shows two different ids for the same (mhp, h, id) triple; ids are just labels
+\* Two plausible WRONG selections, used only to count the rows on which they are certain to be noticed (non-vacuity of the
+\* table): the frequency counted over all peers, and one pass over the composite key 2*mhp + height.
+AllFreqBest(s) ==
+  LET m1 == MaxOf({s[i].mhp : i \in Idx(s)})
+      S1 == {i \in Idx(s) : s[i].mhp = m1}
+      m2 == MaxOf({s[i].h : i \in S1})
+      S2 == {i \in S1 : s[i].h = m2}
+      Freq(i) == Cardinality({j \in Idx(s) : s[j].id = s[i].id})
+      m3 == MaxOf({Freq(i) : i \in S2})
+  IN {i \in S2 : Freq(i) = m3}
+CompositeBest(s) ==
+  LET Key(i) == 2 * s[i].mhp + s[i].h
+      m == MaxOf({Key(i) : i \in Idx(s)})
+      S == {i \in Idx(s) : Key(i) = m}
+      Freq(i) == Cardinality({j \in S : s[j].id = s[i].id})
+      m3 == MaxOf({Freq(i) : i \in S})
+  IN {i \in S : Freq(i) = m3}
+
 Init == x \in (IF Mode = "peers" THEN Infos ELSE {<<>>})
 Next == UNCHANGED x
 Spec == Init /\ [][Next]_svars
 
 B(b) == IF b THEN 1 ELSE 0
+\* one JSON object per row (a string is never wrapped by TLC's pretty printer)
 Row == IF Mode = "peers"
-       THEN PrintT(<<"TB", [i \in Idx(x) |-> <<x[i].mhp, x[i].h, x[i].id>>], [i \in Idx(x) |-> B(i \in BestPeers(x))]>>)
+       THEN PrintT(<<"TB", ToJson([t |-> [i \in Idx(x) |-> <<x[i].mhp, x[i].h, x[i].id>>],
+                                  b |-> [i \in Idx(x) |-> B(i \in BestPeers(x))],
+                                  k |-> <<B(AllFreqBest(x) \cap BestPeers(x) = {}), B(CompositeBest(x) \cap BestPeers(x) = {})>>])>>)
        ELSE TRUE
 BestNonEmpty == Mode = "peers" => BestPeers(x) # {}
 
 (* ---------------- handlers (used by SyncTrace) ---------------- *)
 \* chain: sequence of ids, chain[i] at height i-1 (genesis first)
+OnChain(chain, id) == \E i \in 1..Len(chain) : chain[i] = id
 HeightOf(chain, id) == CHOOSE i \in 1..Len(chain) : chain[i] = id
 HighestCommon(chain, ids) ==
   LET on == {i \in 1..Len(chain) : chain[i] \in ids} IN
   IF on = {} THEN 0 ELSE chain[MaxOf(on)]
+\* the complete answer for a given cap (kept: what today's handler returns)
 BlocksFrom(chain, id, cap) ==
   LET i == HeightOf(chain, id) IN SubSeq(chain, i + 1, IF i + cap <= Len(chain) THEN i + cap ELSE Len(chain))
+\* what the statement fixes: the blocks that follow the id on the responder's own chain, consecutive, in order, never more
+\* than the cap - and at least one when something follows (an answer that never makes progress serves no segment).
+\* An id the responder does not have has no followers: no block may be returned.
+BlocksFromOk(chain, id, cap, res) ==
+  IF ~OnChain(chain, id) THEN res = <<>>
+  ELSE LET i == HeightOf(chain, id) IN
+       /\ Len(res) <= cap
+       /\ i + Len(res) <= Len(chain)
+       /\ res = SubSeq(chain, i + 1, i + Len(res))
+       /\ (i < Len(chain) => Len(res) >= 1)
 
 (* ---------------- outcome of offering a peer's tip ---------------- *)
 Better(t2, t1) == t2.mhp > t1.mhp \/ (t2.mhp = t1.mhp /\ t2.h > t1.h)
 Abs(a) == IF a < 0 THEN -a ELSE a
 \* f: [a, b: tips [h, mhp]; common, fin: heights; n: number of validators; genKnown: the offered block's generator is a
-\*     current validator; slotGap: current slot - slot of the finalized block; behaviour: "honest" | "corrupt";
-\*     child: the offered block is a direct child of the node's tip]
+\*     current validator; slotGap: current slot - slot of the finalized block; child: the offered block is a direct child of
+\*     the node's tip; behaviour of the peer:
+\*       "honest"    serves its valid chain the way the handlers of this specification do
+\*       "corrupt"   one served block is invalid (re-signed wrong state root / height, payload that does not match the header,
+\*                   statically invalid transaction, a block missing in the middle); the bad block may lie in the middle
+\*       "truncate"  serves fewer blocks than asked for and then nothing
+\*       "disorder"  serves the valid blocks of the segment, but not in ascending order (not a conforming handler: the node
+\*                   may cope or may treat the peer as faulty - the statement fixes only that it ends in a sound state)]
+Refused == {"own", "own+ban"}
 Outcomes(f) ==
-  IF f.child THEN (IF f.behaviour = "corrupt" THEN {"own"} ELSE {"peer"})
-  ELSE IF ~Better(f.b, f.a) THEN {"own"}
+  \* the statement is silent about banning the sender of an invalid child block or of a block without priority
+  IF f.child THEN (IF f.behaviour = "corrupt" THEN Refused ELSE {"peer"})
+  ELSE IF ~Better(f.b, f.a) THEN Refused
   ELSE IF Abs(f.b.h - f.a.h) <= 2 * f.n /\ f.genKnown
        THEN \* fast sync
             IF f.common < f.fin THEN {"own+ban"}
             \* fork point more than two rounds back: refused; the common-block query over the last 2n-1 heights fails
             \* first, and that failure bans the peer (LIP-0014 fast chain switching does the same)
-            ELSE IF f.a.h - f.common > 2 * f.n \/ f.b.h - f.common > 2 * f.n THEN {"own", "own+ban"}
+            ELSE IF f.a.h - f.common > 2 * f.n \/ f.b.h - f.common > 2 * f.n THEN Refused
             ELSE IF f.behaviour = "honest" THEN {"peer"}
             ELSE IF f.behaviour = "corrupt" THEN {"own+ban"}      \* downloaded blocks prove invalid: originals restored, peer banned
-            ELSE {"own", "own+ban"}                                \* peer fails to serve the segment
+            ELSE IF f.behaviour = "disorder" THEN {"peer"} \cup Refused
+            ELSE Refused                                           \* peer fails to serve the segment
   ELSE IF f.slotGap > 3 * f.n
        THEN \* block sync: the statement fixes the honest case only
-            IF f.common < f.fin THEN {"own", "own+ban"}
-            ELSE IF f.behaviour = "honest" THEN {"peer"} ELSE {"own", "own+ban", "partial", "partial+ban"}
-  ELSE {"own"}
+            IF f.common < f.fin THEN Refused
+            ELSE IF f.behaviour = "honest" THEN {"peer"}
+            ELSE IF f.behaviour = "disorder" THEN {"peer", "partial", "partial+ban"} \cup Refused
+            ELSE {"partial", "partial+ban"} \cup Refused
+  ELSE Refused
+
+\* The scenario is one for the block synchronisation (far ahead, finality lagging).  With a faulty peer the statement fixes
+\* nothing there beyond safety: a failed attempt may leave the node on a prefix of the peer's chain - possibly a prefix
+\* that ends in the node's own tip again - with the blocks it removed kept as temporary blocks.
+BlockSyncPath(f) ==
+  /\ ~f.child /\ Better(f.b, f.a)
+  /\ ~(Abs(f.b.h - f.a.h) <= 2 * f.n /\ f.genKnown)
+  /\ f.slotGap > 3 * f.n
+
+(* ---------------- finality bookkeeping of a sync (C04) ---------------- *)
+\* evs: the finalize events <<original, next>> published during the sync, in order.  "A finalization event is emitted
+\* exactly for those raises": the events form a chain of strict raises from the height before to the height after
+\* (one event per raise; how many heights one raise spans is not fixed).
+FinalizeChainOk(evs, before, after) ==
+  IF Len(evs) = 0 THEN before = after
+  ELSE /\ evs[1][1] = before
+       /\ evs[Len(evs)][2] = after
+       /\ \A i \in 1..Len(evs) : evs[i][1] < evs[i][2]
+       /\ \A i \in 1..(Len(evs) - 1) : evs[i][2] = evs[i + 1][1]
 =============================================================================
